@@ -564,11 +564,16 @@ class InProtocolBase(ProtocolMixin):
         seconds = i
         microseconds = int(round(1e6 * f))
 
-        delta = timedelta(days=days, hours=hours, minutes=minutes,
-            seconds=seconds, microseconds=microseconds)
+        try:
+            delta = timedelta(days=days, hours=hours, minutes=minutes,
+                seconds=seconds, microseconds=microseconds)
 
-        if duration['sign'] == "-":
-            delta *= -1
+            if duration['sign'] == "-":
+                delta *= -1
+
+        except (OverflowError, ValueError) as e:
+            # more than a timedelta can hold
+            raise ValidationError(string, "%%r: %r" % (e,))
 
         return delta
 
